@@ -83,7 +83,11 @@ def run_go_functions(rep, spec, contracts, word=64, natives=(), extra_pkgs=(), v
             inl |= set(cl.text.replace(',', ' ').split())
     pkgs = sorted({pkg_of_key(k) for k in list(keys) + list(inl) if not k.startswith(('natives:', 'goroot:'))} | set(extra_pkgs))
     allkeys = {c.key for c in spec.contracts if c.kind == 'func' and not c.key.startswith(('natives:', 'goroot:')) and pkg_of_key(c.key) in pkgs}
-    dump = run_astdump(pkgs, sorted(set(keys) | inl | allkeys), natives=natives)
+    gl = set()
+    for c in contracts:
+        for cl in c.get('initval'):
+            gl |= set(cl.text.replace(',', ' ').split())
+    dump = run_astdump(pkgs, sorted(set(keys) | inl | allkeys), natives=natives, globals_=sorted(gl))
     for e in dump.get('errors') or []:
         rep.notes.append('type-check: ' + e)
     out = []
